@@ -3,6 +3,7 @@ CONSTANTS
   Threads = {"t1", "t2"}
   Progs <- ProgTable
   Dev = {}
+  ProgSel = {"rd", "wr", "wg", "df", "fc", "uid"}
   MaxJobs = 2
 INVARIANTS Deterministic BuiltinImmutable Unique CounterMatches MutexOk MatchesAlone Emit
 CHECK_DEADLOCK FALSE
